@@ -40,7 +40,7 @@ import (
 	"go/types"
 	"io"
 	"reflect"
-		"strings"
+	"strings"
 	"sync"
 	"unsafe"
 
@@ -74,7 +74,6 @@ type closure struct {
 }
 
 type bad struct{}
-
 
 // Hash functions and equivalence relation:
 
@@ -180,7 +179,6 @@ func (x iface) eq(t types.Type, _y interface{}) bool {
 func (x iface) hash(outer types.Type) int {
 	return hashType(x.t)*8581 + hash(outer, x.t, x.v)
 }
-
 
 // equals returns true iff x and y are equal according to Go's
 // linguistic equivalence relation for type t.
